@@ -3395,3 +3395,199 @@ mod tests {
         let _ = proxy.finish().await;
     }
 }
+
+/// Verification hooks (only with `--cfg scylla_verif`): drives the crate-private
+/// `ResponseHandlerMap` (stream-id bitmap, handlers, request-id map, orphanage) with opaque
+/// `u64` handler tokens. Each token stands for a real `ResponseHandler` holding a real
+/// `oneshot::Sender`; a handler returned by the map is identified by sending through it and
+/// observing which receiver got the message. Nothing here changes the wrapped code.
+#[cfg(scylla_verif)]
+#[allow(missing_docs)]
+pub mod verif_hooks {
+    use super::{
+        HandlerLookupResult, InternalRequestError, ResponseHandler, ResponseHandlerMap,
+        TaskResponse,
+    };
+    use std::collections::HashMap;
+    use tokio::sync::oneshot;
+
+    type Rx = oneshot::Receiver<Result<TaskResponse, InternalRequestError>>;
+
+    /// Token reported when a returned handler matches no receiver the hook created.
+    pub const UNKNOWN_TOKEN: u64 = u64::MAX;
+
+    #[derive(Debug, Clone, Copy, PartialEq, Eq)]
+    pub enum VerifLookup {
+        Orphaned,
+        Handler { request_id: u64, token: u64 },
+        Missing,
+    }
+
+    /// Internal state as stored by the real structures (sorted for comparison).
+    #[derive(Debug, Clone, PartialEq, Eq)]
+    pub struct VerifSnapshot {
+        /// (index, word) of every non-zero word of `StreamIdSet::used_bitmap`
+        pub bitmap_nonzero: Vec<(usize, u64)>,
+        pub bitmap_len: usize,
+        /// `request_to_stream`, sorted by request id
+        pub request_to_stream: Vec<(u64, i16)>,
+        /// keys of `OrphanageTracker::orphans`, sorted
+        pub orphans: Vec<i16>,
+        /// `OrphanageTracker::by_orphaning_times.len()`
+        pub by_orphaning_times_len: usize,
+        /// keys of `handlers`, sorted
+        pub handler_ids: Vec<i16>,
+    }
+
+    pub struct VerifHandlerMap {
+        map: Option<ResponseHandlerMap>,
+        receivers: HashMap<u64, Rx>,
+        // the hook's guess which token sits at a stream id (only a fast path for `identify`)
+        guess: HashMap<i16, u64>,
+    }
+
+    impl Default for VerifHandlerMap {
+        fn default() -> Self {
+            Self::new()
+        }
+    }
+
+    impl VerifHandlerMap {
+        pub fn new() -> Self {
+            Self {
+                map: Some(ResponseHandlerMap::new()),
+                receivers: HashMap::new(),
+                guess: HashMap::new(),
+            }
+        }
+
+        fn inner(&mut self) -> &mut ResponseHandlerMap {
+            self.map.as_mut().expect("into_handlers already called")
+        }
+
+        // Consumes a handler given back by the real code and finds the token it belongs to.
+        fn identify(&mut self, handler: ResponseHandler, guess: Option<u64>) -> (u64, u64) {
+            let request_id = handler.request_id;
+            let _ = handler
+                .response_sender
+                .send(Err(InternalRequestError::UnableToAllocStreamId));
+            if let Some(g) = guess {
+                if let Some(rx) = self.receivers.get_mut(&g) {
+                    if rx.try_recv().is_ok() {
+                        self.receivers.remove(&g);
+                        return (request_id, g);
+                    }
+                }
+            }
+            let mut found = None;
+            for (t, rx) in self.receivers.iter_mut() {
+                if rx.try_recv().is_ok() {
+                    found = Some(*t);
+                    break;
+                }
+            }
+            match found {
+                Some(t) => {
+                    self.receivers.remove(&t);
+                    (request_id, t)
+                }
+                None => (request_id, UNKNOWN_TOKEN),
+            }
+        }
+
+        /// `ResponseHandlerMap::allocate` with a fresh real handler standing for `token`.
+        /// `Err(token)` = the handler the map gave back.
+        pub fn allocate(&mut self, request_id: u64, token: u64) -> Result<i16, u64> {
+            assert!(token != UNKNOWN_TOKEN && !self.receivers.contains_key(&token));
+            let (response_sender, rx) = oneshot::channel();
+            self.receivers.insert(token, rx);
+            let handler = ResponseHandler {
+                response_sender,
+                request_id,
+            };
+            match self.inner().allocate(handler) {
+                Ok(stream_id) => {
+                    self.guess.insert(stream_id, token);
+                    Ok(stream_id)
+                }
+                Err(handler) => Err(self.identify(handler, Some(token)).1),
+            }
+        }
+
+        /// `ResponseHandlerMap::orphan`
+        pub fn orphan(&mut self, request_id: u64) {
+            self.inner().orphan(request_id)
+        }
+
+        /// `ResponseHandlerMap::lookup` (the reader only calls it with `stream_id >= 0`)
+        pub fn lookup(&mut self, stream_id: i16) -> VerifLookup {
+            match self.inner().lookup(stream_id) {
+                HandlerLookupResult::Orphaned => VerifLookup::Orphaned,
+                HandlerLookupResult::Missing => VerifLookup::Missing,
+                HandlerLookupResult::Handler(h) => {
+                    let g = self.guess.get(&stream_id).copied();
+                    let (request_id, token) = self.identify(h, g);
+                    VerifLookup::Handler { request_id, token }
+                }
+            }
+        }
+
+        /// Is the sender standing for `token` still held (neither used nor dropped)?
+        pub fn is_pending(&mut self, token: u64) -> bool {
+            match self.receivers.get_mut(&token) {
+                None => false,
+                Some(rx) => match rx.try_recv() {
+                    Err(oneshot::error::TryRecvError::Empty) => true,
+                    _ => {
+                        self.receivers.remove(&token);
+                        false
+                    }
+                },
+            }
+        }
+
+        pub fn old_orphans_count(&mut self) -> usize {
+            self.inner().old_orphans_count()
+        }
+
+        pub fn snapshot(&mut self) -> VerifSnapshot {
+            let m = self.inner();
+            let mut request_to_stream: Vec<(u64, i16)> =
+                m.request_to_stream.iter().map(|(k, v)| (*k, *v)).collect();
+            request_to_stream.sort_unstable();
+            let mut orphans: Vec<i16> = m.orphanage_tracker.orphans.keys().copied().collect();
+            orphans.sort_unstable();
+            let mut handler_ids: Vec<i16> = m.handlers.keys().copied().collect();
+            handler_ids.sort_unstable();
+            VerifSnapshot {
+                bitmap_nonzero: m
+                    .stream_set
+                    .used_bitmap
+                    .iter()
+                    .enumerate()
+                    .filter(|(_, w)| **w != 0)
+                    .map(|(i, w)| (i, *w))
+                    .collect(),
+                bitmap_len: m.stream_set.used_bitmap.len(),
+                request_to_stream,
+                orphans,
+                by_orphaning_times_len: m.orphanage_tracker.by_orphaning_times.len(),
+                handler_ids,
+            }
+        }
+
+        /// `ResponseHandlerMap::into_handlers`: (stream id, request id, token), sorted by stream id.
+        /// The map is consumed; no other method may be called afterwards.
+        pub fn into_handlers(&mut self) -> Vec<(i16, u64, u64)> {
+            let map = self.map.take().expect("into_handlers already called");
+            let mut out = Vec::new();
+            for (stream_id, handler) in map.into_handlers() {
+                let g = self.guess.get(&stream_id).copied();
+                let (request_id, token) = self.identify(handler, g);
+                out.push((stream_id, request_id, token));
+            }
+            out.sort_unstable();
+            out
+        }
+    }
+}
